@@ -212,6 +212,64 @@ func runC06(c *Ctx) {
 	r.Floor("C06.replace", 1)
 	r.Floor("C06.inc", 1)
 
+	// --- C06.paired: the converse of dec/replace — references are released only on
+	// paths that really remove or replace that pipeline
+	nRel := 0
+	for _, f := range p.FuncsIn(PkgRoot) {
+		if f.Parent() != nil {
+			continue
+		}
+		rel := callsTo(f, func(n string, cc *ssa.CallCommon) bool { _, ok := isReleaseCall(cc); return ok })
+		if len(rel) == 0 {
+			continue
+		}
+		for _, pa := range c.enum("C06.paired", f, PathOpts{}) {
+			if _, ok := pa.End.(*ssa.Return); !ok {
+				continue
+			}
+			calls := pa.CallsOn()
+			for _, s := range calls {
+				ci := s.In.(ssa.CallInstruction)
+				kind, ok := isReleaseCall(ci.Common())
+				if !ok {
+					continue
+				}
+				stb := pa.TermsAt(s)
+				a := stb.Of(pa.Resolve(s, ci.Common().Args[1]))
+				// which Nodes() call do the released ids come from?
+				var src *Term
+				switch {
+				case kind == "releaseNodes" && a.Op == "Extract" && a.Args[0].Name == "(*eventlogger.graphMap).Nodes":
+					src = a.Args[0]
+				case kind == "unregisterNode" && a.Op == "Index" && a.Args[0].Op == "Extract" && a.Args[0].Args[0].Name == "(*eventlogger.graphMap).Nodes":
+					src = a.Args[0].Args[0]
+				default:
+					continue // a single id supplied by the caller (RemoveNode): not a pipeline release
+				}
+				nRel++
+				mapT, keyT := src.Args[0].String(), src.Args[1].String()
+				removed := false
+				for _, s2 := range calls {
+					c2 := s2.In.(ssa.CallInstruction)
+					n2 := calleeName(c2.Common())
+					if n2 != "(*eventlogger.graphMap).Store" && n2 != "(*eventlogger.graphMap).Delete" {
+						continue
+					}
+					t2 := pa.TermsAt(s2)
+					if t2.Of(pa.Resolve(s2, c2.Common().Args[0])).String() == mapT && t2.Of(pa.Resolve(s2, c2.Common().Args[1])).String() == keyT {
+						removed = true
+					}
+				}
+				r.Check(removed, "C06.paired", p.ShortFn(f)+":release", p.InstrPos(ci),
+					"a pipeline's node references are released only on paths that also delete or replace that pipeline",
+					"the node references of a pipeline are released on a path that neither deletes nor replaces it (e.g. a registration that fails afterwards): the pipeline stays registered while its nodes look unused and can be removed and closed under it: "+p.PathSummary(pa))
+			}
+		}
+	}
+	if nRel < 3 {
+		r.Und("C06.paired", "instance-floor", "", fmt.Sprintf("only %d pipeline releases seen on paths (3 expected: RemovePipeline, RegisterPipeline overwrite, RemovePipelineAndNodes)", nRel))
+	}
+
 	// --- C06.domain: graphMap.Nodes returns the keys of flatten(rootNode)
 	if nodes := c.Fn("C06.domain", PkgRoot, "graphMap", "Nodes"); nodes != nil {
 		fl := callsTo(nodes, func(n string, cc *ssa.CallCommon) bool { return n == "(*eventlogger.linkedNode).flatten" })
@@ -745,6 +803,49 @@ func runC07(c *Ctx) {
 		}
 	}
 	c.immutableRule("C07.swap")
+	// the overwrite is ONE Store: nothing reachable from RegisterPipeline deletes from the graph
+	if fn := c.Fn("C07.swap", PkgRoot, "Broker", "RegisterPipeline"); fn != nil {
+		var chain []string
+		var find func(f *ssa.Function, seen map[*ssa.Function]bool) bool
+		find = func(f *ssa.Function, seen map[*ssa.Function]bool) bool {
+			if seen[f] {
+				return false
+			}
+			seen[f] = true
+			hit := false
+			eachInstr(f, func(in ssa.Instruction) {
+				if hit {
+					return
+				}
+				ci, ok := in.(ssa.CallInstruction)
+				if !ok {
+					return
+				}
+				sc := ci.Common().StaticCallee()
+				if sc == nil {
+					return
+				}
+				if sc.String() == "(*"+PkgRoot+".graphMap).Delete" {
+					chain = append(chain, p.ShortFn(f)+" calls graphMap.Delete at "+p.InstrPos(in))
+					hit = true
+					return
+				}
+				if p.InRepo(sc) && sc.Blocks != nil && find(sc, seen) {
+					chain = append(chain, p.ShortFn(f)+" calls "+p.ShortFn(sc)+" at "+p.InstrPos(in))
+					hit = true
+				}
+			})
+			for _, a := range f.AnonFuncs {
+				if !hit && find(a, seen) {
+					hit = true
+				}
+			}
+			return hit
+		}
+		del := find(fn, map[*ssa.Function]bool{})
+		r.Check(!del, "C07.swap", "RegisterPipeline:single-store", p.Pos(fn.Pos()), "registration never deletes from the graph: an overwrite is a single Store (a concurrent Send sees the old or the new version, never neither)",
+			"RegisterPipeline can delete a pipeline from the graph before storing its replacement: a concurrent Send (which ranges the sync.Map without the broker lock) is processed by neither version, and a failing overwrite loses the original: "+strings.Join(chain, " <- "))
+	}
 
 	// --- C07.reset: no policy-typed field outside the map entries
 	for _, owner := range []string{"eventlogger.Broker", "eventlogger.graph", "eventlogger.graphMap"} {
